@@ -50,7 +50,15 @@ def outcome(fn):
         return (type(e).__name__, None)
 
 
+def pre_build(ctx):
+    import gen_units
+    gen_units.pre_build(ctx, "translate_conv")
+
+
 def run(ctx, only=None):
+    if only is None:
+        import gen_units
+        gen_units.g_unit(ctx, "translate_conv")
     from gradient_free_optimizers.optimizers.core_optimizer.converter import Converter
     rng = ctx.sub_rng("k")
     units = {}
